@@ -235,3 +235,9 @@ package canary
 //@   requires typeis(v1, *KnockGroup) && typeis(v2, *KnockGroup)
 //@   ensures result ==> unbox(v1, *KnockGroup).Protocol == unbox(v2, *KnockGroup).Protocol
 //@   modifies nothing
+//
+// Accept never fails (the server's accept loop panics on an error; property C01).
+//@ func (*Canary).Accept
+//@   check safety
+//@   ensures result1 == nil
+//@   modifies nothing
